@@ -1,5 +1,5 @@
 # replay of a bounded stand-in violation: re-run native/c01_backends.py
 import sys
-print("CXgate(0.3,).H | (q[1], q[0]) of 3 on fock: ('quad', 0, 0.0) = [0.1181, 0.8085], the documented action gives [0.0061, 0.7709]")
+print("Pgate(0.25,) | q[0] of 2 after Del | q[0] (indices shifted by one) on fock: raised ValueError: axes don't match array")
 print('REPLAY-VIOLATION')
 sys.exit(1)
